@@ -61,16 +61,23 @@ let run_wna (c : Caseio.case) (r : Caseio.case option) =
          (fun k op ->
            let name = Printf.sprintf "r%d" k in
            let arg = int_of_string (String.sub op 1 (String.length op - 1)) in
+           let getters () =
+             out_lmx (name ^ "_F") d d (c16_wna_F fops no_sq dm ts);
+             out_lmx (name ^ "_Q") d d (c16_wna_Q fops no_sq dm ts q);
+             Caseio.out_int (name ^ "_ss") (int_of_nat (dim_n dm)) in
            match op.[0] with
+           (* setSamplingTime is the base-class no-op; a moved model is the model it was moved from *)
+           | 's' -> Caseio.out_int (name ^ "_ret") 1; getters ()
+           | 'c' | 'a' | 'v' -> getters ()
            | 'n' ->
              let (s, rest) = c16_wna_noise fops sq dm ts q (n_ arg) !zs in
              zs := rest; out_lmx name d arg s
-           | 'm' ->
+           | 'm' | 'b' ->
              let x = Caseio.get_mat c (Printf.sprintf "X%d" arg) in
              let cols = mat_cols x in
              let (y, rest) = c16_wna_motion fops sq dm ts q (n_ cols) (lmx_of_mat x) !zs in
              zs := rest; out_lmx name d cols y
-           | 't' ->
+           | 't' | 'u' ->
              let p = Caseio.get_mat c (Printf.sprintf "P%d" arg) and cu = Caseio.get_mat c (Printf.sprintf "C%d" arg) in
              let cols = mat_cols p in
              let v = c16_wna_tp fops sq dm ts q (n_ cols) (lmx_of_mat p) (lmx_of_mat cu) in
@@ -88,7 +95,8 @@ let run_lti_state (c : Caseio.case) =
   | Inl e -> Caseio.out_str "result" (lti_err_name e)
   | Inr (f', q') ->
     Caseio.out_str "result" "ok";
-    out_lmx "F" fr fc f'; out_lmx "Q" qr qc q'; out_lmx "J" fr fc f'
+    out_lmx "F" fr fc f'; out_lmx "Q" qr qc q'; out_lmx "J" fr fc f';
+    out_lmx "F_after" fr fc f'; out_lmx "Q_after" qr qc q'
 
 let run_lti_meas (c : Caseio.case) =
   let h = Caseio.get_mat c "H" and r = Caseio.get_mat c "R" in
@@ -179,7 +187,7 @@ let run_sim (c : Caseio.case) (r : Caseio.case option) with_sensor =
             match linear_model c (Some r) d with
             | None -> ()
             | Some (h, lr, m) ->
-              let (inp, meas) = c16_sensor_descs fops no_sq (n_ m) (n_ d) h (n_ d) (n_ (Caseio.meta_int c "rr")) in
+              let (inp, meas) = c16_sensor_descs fops no_sq (n_ m) (n_ d) h (n_ d) (n_ 0) (n_ (Caseio.meta_int c "rr")) in
               Caseio.out_int "input_size" (int_of_nat (desc_total inp));
               Caseio.out_int "input_noise" (int_of_nat inp.d_noise);
               Caseio.out_int "meas_size" (int_of_nat (desc_total meas));
@@ -202,13 +210,86 @@ let run_grid (c : Caseio.case) =
   let st0 = Caseio.get_mat c "st0" and w0 = Caseio.get_mat c "w0" in
   let (xi, xs, yi, ys) =
     if Caseio.get_int c "ctor4" <> 0 then (0.0, a.(0).(1), 0.0, a.(0).(3)) else (a.(0).(0), a.(0).(1), a.(0).(2), a.(0).(3)) in
-  match c16_grid fops no_sq (ob xi) (ob xs) (ob yi) (ob ys) (n_ nx) (n_ ny) (n_ np) (lmx_of_mat st0) (lmx_of_mat w0) with
+  match c16_grid fops no_sq (ob xi) (ob xs) (ob yi) (ob ys) (n_ nx) (n_ ny) (n_ 4) (n_ np) (lmx_of_mat st0) (lmx_of_mat w0) with
   | None ->
     Caseio.out_int "ret" 0;
     Caseio.out_mat_shape "state" 4 np st0; Caseio.out_mat_shape "weight" np 1 w0
   | Some (s, w) ->
     Caseio.out_int "ret" 1;
     out_lmx "state" 4 np s; out_lmx "weight" np 1 w
+
+(* SimulatedStateModel (and a sensor) over a user-defined additive linear model x -> F x + w_k *)
+let run_ltisim (c : Caseio.case) (r : Caseio.case option) =
+  let lin = Caseio.get_int c "lin" and circ = Caseio.get_int c "circ" and len = Caseio.get_int c "len" in
+  let n = lin + circ in
+  let f = lmx_of_mat (Caseio.get_mat c "F") and x0 = lmx_of_mat (Caseio.get_mat c "x0") in
+  let w = Caseio.get_mat c "W" in
+  (* column-major: the k-th group of n draws is column k of W *)
+  let zs = List.concat (List.init (mat_cols w) (fun j -> List.init n (fun i -> ob w.(i).(j)))) in
+  match c16_lti_sim_ctor fops no_sq (n_ n) f x0 (n_ len) zs with
+  | Inl _ -> Caseio.out_str "ctor" "throws_empty"
+  | Inr st ->
+    let tr = c16_sim_target fops no_sq (n_ n) st in
+    List.iteri (fun k x -> out_lmx (Printf.sprintf "x%d" k) n 1 x) tr;
+    let words = Caseio.get_word c "ops" in
+    let sim_ops = List.map (fun s -> if s = "b" || s = "f" then SimBuffer else if s = "r" then SimReset else SimOther) words in
+    List.iteri
+      (fun k (b, dt) ->
+        Caseio.out_int (Printf.sprintf "ret%d" k) (if b then 1 else 0);
+        out_data (Printf.sprintf "data%d" k) n dt)
+      (c16_sim_run fops no_sq (n_ n) st sim_ops);
+    if Caseio.get_int c "sensor" <> 0 then begin
+      match r with
+      | None -> ()
+      | Some r ->
+        (match linear_model c (Some r) n with
+         | None -> ()
+         | Some (h, lr, m) ->
+           let (inp, meas) = c16_sensor_descs fops no_sq (n_ m) (n_ n) h (n_ lin) (n_ circ) (n_ (Caseio.meta_int c "rr")) in
+           Caseio.out_int "input_size" (int_of_nat (desc_total inp));
+           Caseio.out_int "input_lin" (int_of_nat inp.d_lin);
+           Caseio.out_int "input_circ" (int_of_nat inp.d_circ);
+           Caseio.out_int "input_noise" (int_of_nat inp.d_noise);
+           Caseio.out_int "meas_size" (int_of_nat (desc_total meas));
+           Caseio.out_int "meas_lin" (int_of_nat meas.d_lin);
+           Caseio.out_int "meas_circ" (int_of_nat meas.d_circ);
+           let zs2 = if Caseio.has r "draws2" then objs_of_row (Caseio.get_mat r "draws2") else [] in
+           let ops = List.map (fun s -> if s = "f" then SensFreeze else if s = "r" then SensReset else SensOther) words in
+           List.iteri
+             (fun k (_, ms) ->
+               match ms with
+               | None -> Caseio.out_mat_shape (Printf.sprintf "meas%d" k) 0 0 [||]
+               | Some v -> out_lmx (Printf.sprintf "meas%d" k) m 1 v)
+             (c16_sensor_run fops no_sq (n_ n) (n_ m) h lr st zs2 ops))
+    end
+
+(* one pair of initialisers over a pool of particle sets: the content of a set before each call is
+   read from the implementation's record (pre_state<k>, pre_weight<k>) *)
+let run_gridseq (c : Caseio.case) (r : Caseio.case option) =
+  match r with
+  | None -> ()
+  | Some r ->
+    let init i =
+      let t = string_of_int i in
+      let a = Caseio.get_mat c ("area" ^ t) in
+      let nx = Caseio.get_int c ("nx" ^ t) and ny = Caseio.get_int c ("ny" ^ t) in
+      if Caseio.get_int c ("ctor4_" ^ t) <> 0 then (0.0, a.(0).(1), 0.0, a.(0).(3), nx, ny) else (a.(0).(0), a.(0).(1), a.(0).(2), a.(0).(3), nx, ny) in
+    for k = 0 to Caseio.get_int c "steps" - 1 do
+      let t = string_of_int k in
+      if Caseio.has r ("pre_state" ^ t) && Caseio.has r ("pre_weight" ^ t) then begin
+        let st0 = Caseio.get_mat r ("pre_state" ^ t) and w0 = Caseio.get_mat r ("pre_weight" ^ t) in
+        let s_ = string_of_int (Caseio.get_int c ("set" ^ t)) in
+        let rows = Caseio.get_int c ("rows" ^ s_) and np = Caseio.get_int c ("np" ^ s_) in
+        let (xi, xs, yi, ys, nx, ny) = init (Caseio.get_int c ("init" ^ t)) in
+        match c16_grid fops no_sq (ob xi) (ob xs) (ob yi) (ob ys) (n_ nx) (n_ ny) (n_ rows) (n_ np) (lmx_of_mat st0) (lmx_of_mat w0) with
+        | None ->
+          Caseio.out_int ("ret" ^ t) 0;
+          Caseio.out_mat_shape ("state" ^ t) rows np st0; Caseio.out_mat_shape ("weight" ^ t) np 1 w0
+        | Some (s, w) ->
+          Caseio.out_int ("ret" ^ t) 1;
+          out_lmx ("state" ^ t) rows np s; out_lmx ("weight" ^ t) np 1 w
+      end
+    done
 
 let () =
   let cases = Caseio.read_records "case" stdin in
@@ -224,6 +305,8 @@ let () =
        | "sim" -> run_sim c r false
        | "sensor" -> run_sim c r true
        | "grid" -> run_grid c
+       | "gridseq" -> run_gridseq c r
+       | "ltisim" -> run_ltisim c r
        | _ -> ());
       Caseio.out_end ())
     cases
